@@ -125,23 +125,22 @@ theorem inBump_spec (stop : List Nat) : ∀ (fuel : Nat) (s : List Nat) (r : Nat
           · subst hxr; exact ⟨hc.1, b, hb, fun p hp => rs.tgt p hp⟩
           · exact rs.closed x hx (by simp [hxr, hn])
 
-/-- the set returned by `get_rbuilds_in_bump` -/
-theorem inBump_mem {stop : List Nat} {fuel t : Nat} {s : List Nat} (h : inBump g stop fuel [] t = .ok s) :
-    ∀ x, x ∈ s ↔ RbAvoid g stop x t := by
-  have rs := inBump_spec (g := g) stop fuel [] t s h
+/-- the set computed by a closure step that starts from the empty set -/
+theorem bumpStep_mem {stop : List Nat} {l s : List Nat} (rs : BumpStep g stop l [] s) :
+    ∀ x, x ∈ s ↔ ∃ t ∈ l, RbAvoid g stop x t := by
   intro x
   constructor
   · intro hx
-    rcases rs.from_ x hx with h1 | ⟨t', ht', hr⟩
+    rcases rs.from_ x hx with h1 | h1
     · cases h1
-    · simp at ht'; subst ht'; exact hr
-  · intro hr
+    · exact h1
+  · rintro ⟨t, ht, hr⟩
     have hts : t ∈ s := by
-      rcases rs.tgt t (by simp) with h1 | h1
+      rcases rs.tgt t ht with h1 | h1
       · exact h1
       · exact absurd h1 hr.top_not_stop
     have hclosed := rs.closed
-    clear h rs
+    clear rs ht
     induction hr with
     | refl _ _ => exact hts
     | step h1 h2 h3 hr' ih =>
@@ -151,78 +150,61 @@ theorem inBump_mem {stop : List Nat} {fuel t : Nat} {s : List Nat} (h : inBump g
       · exact ih h4
       · exact absurd h4 hr'.top_not_stop
 
-/-! ### linear build graphs -/
+/-- the set returned by the DFS of `get_rbuilds_in_bump` -/
+theorem inBump_mem {stop : List Nat} {fuel t : Nat} {s : List Nat} (h : inBump g stop fuel [] t = .ok s) :
+    ∀ x, x ∈ s ↔ RbAvoid g stop x t := by
+  intro x
+  rw [bumpStep_mem (inBump_spec (g := g) stop fuel [] t s h) x]
+  simp
 
-/-- every build has at most one parent build (the component's reported builds form chains) -/
-def LinearRb (g : Graph β) : Prop := ∀ x b, g.findBuild x = some b → b.parents.length ≤ 1
+theorem rbClosure_eq_inBump : ∀ (fuel : Nat) (seen : List Nat) (x : Nat),
+    rbClosure g fuel seen x = inBump g [] fuel seen x := by
+  intro fuel
+  induction fuel with
+  | zero => intro seen x; simp [rbClosure, inBump]
+  | succ fuel ih =>
+    intro seen x
+    rw [rbClosure, inBump]
+    have : rbClosure g fuel = inBump g [] fuel := by funext s y; exact ih s y
+    simp [this]
 
-/-- parent builds have smaller ids -/
-def TopoRb (g : Graph β) : Prop := ∀ x b, g.findBuild x = some b → ∀ p ∈ b.parents, p < x
+/-- `known_iids` : the `from` builds and every build they contain -/
+theorem known_mem {from_ known : List Nat}
+    (h : from_.foldlM (fun seen f => rbClosure g (f + 1) seen f) [] = .ok known) :
+    ∀ y, y ∈ known ↔ ∃ f ∈ from_, RbAnc g y f := by
+  have rs := bump_fold (g := g) (stop := []) (fun seen f => rbClosure g (f + 1) seen f)
+    (by
+      intro s r s' hr
+      rw [rbClosure_eq_inBump] at hr
+      exact inBump_spec [] (r + 1) s r s' hr)
+    from_ [] known h
+  exact bumpStep_mem rs
 
-theorem RbAvoid.le (ht : TopoRb g) {stop : List Nat} {x t : Nat} (h : RbAvoid g stop x t) : x ≤ t := by
-  induction h with
-  | refl _ _ => exact Nat.le_refl _
-  | step _ h2 h3 _ ih => have := ht _ _ h2 _ h3; omega
+theorem RbAnc.trans {x y t : Nat} (h1 : RbAnc g x y) (h2 : RbAnc g y t) : RbAnc g x t :=
+  RbAvoid.trans h1 h2
 
-theorem linear_parent_unique (hl : LinearRb g) {t : Nat} {b : RB β} (hb : g.findBuild t = some b) {p p' : Nat}
-    (hp : p ∈ b.parents) (hp' : p' ∈ b.parents) : p = p' := by
-  have hlen := hl _ _ hb
-  cases hps : b.parents with
-  | nil => rw [hps] at hp; cases hp
-  | cons q r =>
-    cases r with
-    | nil => rw [hps] at hp hp'; simp at hp hp'; rw [hp, hp']
-    | cons q2 r2 => rw [hps] at hlen; simp at hlen
-
-/-- on a linear, acyclic build graph, with every `from` build contained in the target (the pin does not go back),
-a build is returned by `get_rbuilds_in_bump` iff the target contains it and no `from` build does -/
-theorem rbAvoid_linear (hl : LinearRb g) (ht : TopoRb g) {stop : List Nat} {t : Nat}
-    (hmono : ∀ f ∈ stop, RbAnc g f t) (x : Nat) :
-    RbAvoid g stop x t ↔ RbAnc g x t ∧ ∀ f ∈ stop, ¬ RbAnc g x f := by
+/-- what `get_rbuilds_in_bump` returns (after 88b742a): the builds that the new version contains and none of the
+previous versions does — for every shape of the component's build graph -/
+theorem rbAvoid_known {from_ known : List Nat} (hk : ∀ y, y ∈ known ↔ ∃ f ∈ from_, RbAnc g y f) (x t : Nat) :
+    RbAvoid g known x t ↔ RbAnc g x t ∧ ∀ f ∈ from_, ¬ RbAnc g x f := by
   constructor
   · intro h
     refine ⟨h.anc, ?_⟩
-    have key : ∀ f ∈ stop, RbAnc g f t → ¬ RbAnc g x f := by
-      clear hmono
-      induction h with
-      | refl h1 h2 =>
-        intro f hf hft hxf
-        have h3 := RbAvoid.le ht hft
-        have h4 := RbAvoid.le ht hxf
-        have : f = _ := Nat.le_antisymm h3 h4
-        subst this
-        exact h1 hf
-      | step h1 h2 h3 _ ih =>
-        intro f hf hft
-        cases hft with
-        | refl _ _ => exact absurd hf h1
-        | step _ h2' h3' hfp =>
-          rw [h2] at h2'; cases h2'
-          have := linear_parent_unique hl h2 h3 h3'
-          subst this
-          exact ih f hf hfp
-    intro f hf
-    exact key f hf (hmono f hf)
+    intro f hf hxf
+    exact h.bottom_not_stop ((hk x).mpr ⟨f, hf, hxf⟩)
   · rintro ⟨h1, h2⟩
+    have hx : x ∉ known := fun hin => by
+      obtain ⟨f, hf, hxf⟩ := (hk x).mp hin
+      exact h2 f hf hxf
     induction h1 with
-    | refl _ hb =>
-      refine .refl ?_ hb
-      intro hs; exact h2 _ hs (.refl (by simp) hb)
+    | refl _ hb => exact .refl hx hb
     | step _ hb hp hxp ih =>
       rename_i p t' b _h
-      have ht' : t' ∉ stop := by
-        intro hs
-        exact h2 t' hs (.step (by simp) hb hp hxp)
-      refine .step ht' hb hp (ih ?_)
-      intro f hf
-      have hft := hmono f hf
-      cases hft with
-      | refl _ _ => exact absurd hf ht'
-      | step _ hb' hp' hfp =>
-        rw [hb] at hb'; cases hb'
-        have := linear_parent_unique hl hb hp hp'
-        subst this
-        exact hfp
+      have ht' : t' ∉ known := by
+        intro hin
+        obtain ⟨f, hf, htf⟩ := (hk t').mp hin
+        exact h2 f hf (RbAnc.trans (.step (by simp) hb hp hxp) htf)
+      exact .step ht' hb hp ih
 
 end
 
